@@ -165,6 +165,7 @@ class Engine:
         self.fk_checks = True
         self.stats = {"statements": 0, "calls": {}, "trigger_fires": {}}
         self.trace = None  # optional callable(event dict)
+        self.cc = None     # optional isolation.Interleaving (two-transaction interleavings); None: transactions are atomic
 
     # ---- DDL ----------------------------------------------------------------------------------------
     def load_tables_from_sql(self, text: str, only=None):
@@ -390,6 +391,18 @@ class Engine:
         e.utc_date = self.utc_date
         return e
 
+    def save_state(self):
+        """the rows of every table (for load_state: rewinding the database in place)"""
+        return {"rows": {n: [dict(r) for r in t.rows] for n, t in self.tables.items()},
+                "autoinc": {n: t.autoinc_next for n, t in self.tables.items()}, "utc_date": self.utc_date, "rng": self.rng.getstate()}
+
+    def load_state(self, st):
+        for n, t in self.tables.items():
+            t.rows = [dict(r) for r in st["rows"][n]]
+            t.autoinc_next = st["autoinc"][n]
+        self.utc_date = st["utc_date"]
+        self.rng.setstate(st["rng"])
+
     # ---- sessions -------------------------------------------------------------------------------------
     def connect(self):
         return Session(self)
@@ -424,6 +437,16 @@ class Session:
         self.result_sets: list = []
         self.depth = 0
         self.closed = False
+        # isolation layer (used only while eng.cc is set)
+        self.nested = 0            # > 0 inside a trigger or a stored function
+        self.mode = "current"      # "snapshot" while a SELECT without locking clause is evaluated
+        self.held = []
+        self.snap = None
+        self.read_view = False
+        self.tx_stmts = 0
+        self.own_written = set()
+        self.own_deleted = set()
+        self.own_inserted = []
 
     # ---- DB-API-ish surface used by the fake aiomysql -------------------------------------------------
     def execute(self, sql, args=None):
@@ -476,10 +499,14 @@ class Session:
     def commit(self):
         self.undo.clear()
         self.in_tx = False
+        if self.eng.cc is not None:
+            self.eng.cc.release(self)
 
     def rollback(self):
         self._undo_to(0)
         self.in_tx = False
+        if self.eng.cc is not None:
+            self.eng.cc.release(self)
 
     def close(self):
         self.closed = True
@@ -506,6 +533,21 @@ class Session:
 
     # ---- statements ---------------------------------------------------------------------------------------
     def exec_stmt(self, st, env: Env, top=False):
+        cc = self.eng.cc
+        if cc is not None and (isinstance(st, dict) or st[0] in ("insert", "update", "delete")):
+            from .isolation import _has_lock
+
+            current = not isinstance(st, dict) or _has_lock(st)
+            cc.on_statement(self, st, env, self.nested == 0, current)
+            saved_mode = self.mode
+            self.mode = "current" if current else "snapshot"
+            try:
+                return self._exec_stmt(st, env, top)
+            finally:
+                self.mode = saved_mode
+        return self._exec_stmt(st, env, top)
+
+    def _exec_stmt(self, st, env: Env, top=False):
         if isinstance(st, dict):
             if st.get("into"):
                 self.select_into(st, env)
@@ -586,6 +628,9 @@ class Session:
             raise _Leave(st[1])
         if k == "open":
             c = env.vars["__cursors__"][st[1]]
+            if self.eng.cc is not None:
+                self.exec_cursor_select(c, env)
+                return None
             cols, rows = self.run_select(c["sel"], env)
             c["rows"] = list(rows)
             c["pos"] = 0
@@ -609,14 +654,20 @@ class Session:
             # implicit commit of whatever was open, then a new transaction
             self.undo.clear()
             self.in_tx = True
+            if self.eng.cc is not None:
+                self.eng.cc.release(self)
             return None
         if k == "commit":
             self.undo.clear()
             self.in_tx = False
+            if self.eng.cc is not None:
+                self.eng.cc.release(self)
             return None
         if k == "rollback":
             self._undo_to(0)
             self.in_tx = False
+            if self.eng.cc is not None:
+                self.eng.cc.release(self)
             return None
         if k == "return":
             raise _Return(self.ev(st[1], env))
@@ -624,6 +675,20 @@ class Session:
             msg = self.ev(st[2], env) if st[2] is not None else "Unhandled user-defined exception condition"
             _raise("OperationalError", 1644, msg)
         raise UnsupportedSQL(f"statement kind {k}")
+
+    def exec_cursor_select(self, c, env):
+        from .isolation import _has_lock
+
+        current = _has_lock(c["sel"])
+        self.eng.cc.on_statement(self, c["sel"], env, self.nested == 0, current)
+        saved_mode = self.mode
+        self.mode = "current" if current else "snapshot"
+        try:
+            _cols, rows = self.run_select(c["sel"], env)
+            c["rows"] = list(rows)
+            c["pos"] = 0
+        finally:
+            self.mode = saved_mode
 
     def not_found(self, env):
         h = (env.vars or {}).get("__handlers__", {}).get("not found") if env.vars is not None else None
@@ -724,10 +789,13 @@ class Session:
             vars[pname] = self.coerce(v, pkind)
             vars["__types__"][pname] = pkind
         sub = Env(self, (), vars, None)
+        self.nested += 1
         try:
             self.exec_stmt(r.body, sub)
         except _Return as ret:
             return self.coerce(ret.value, r.returns)
+        finally:
+            self.nested -= 1
         _raise("OperationalError", 1321, f"FUNCTION {name} ended without RETURN")
 
     def fire(self, table, timing, event, old, new):
@@ -740,10 +808,13 @@ class Session:
                 frame["new"] = new
             env = Env(self, (frame,), {"__types__": {}}, None)
             saved_rc = self.row_count
+            self.nested += 1
             try:
                 self.exec_stmt(trg.body, env)
             except _Leave:
                 pass
+            finally:
+                self.nested -= 1
             self.row_count = saved_rc
 
     # ---- DML ----------------------------------------------------------------------------------------------------
@@ -821,6 +892,8 @@ class Session:
                 kv = "-".join(str(row.get(c)) for c in key)
                 _raise("IntegrityError", 1062, f"Duplicate entry '{kv}' for key '{t.name}.{'PRIMARY' if key == t.pk else '_'.join(key)}'")
             # update path
+            if self.eng.cc is not None:
+                self.eng.cc.on_touch(self, t, dup)
             work = dict(dup)
             frame = {t.name: work}
             # the target table's columns win over same-named columns of the SELECT's source tables
@@ -835,6 +908,8 @@ class Session:
             new = work
             return 2 if self._apply_update(t, dup, new) else 0
         self._check_fks(t, row)
+        if self.eng.cc is not None:
+            self.eng.cc.on_insert(self, t, row)
         t.rows.append(row)
         self.undo.append(("ins", t, row))
         self.fire(t.name, "after", "insert", None, row)
@@ -858,6 +933,8 @@ class Session:
                     _raise("IntegrityError", 1062, f"Duplicate entry for key '{t.name}'")
             self.undo.append(("upd", t, row, {k: old.get(k) for k in changed}))
             row.update(changed)
+            if self.eng.cc is not None:
+                self.eng.cc.on_write(self, t, row)
         self.fire(t.name, "after", "update", old, dict(row))
         return bool(changed)
 
@@ -995,6 +1072,8 @@ class Session:
                     if r is row:
                         del t.rows[i]
                         self.undo.append(("del", t, row, i))
+                        if self.eng.cc is not None:
+                            self.eng.cc.on_write(self, t, row, deleted=True)
                         n += 1
                         break
                 self.fire(t.name, "after", "delete", row, None)
@@ -1017,6 +1096,10 @@ class Session:
         """rows and column names of a table reference evaluated in env"""
         if ref[0] == "table":
             t = self.eng.table(ref[1])
+            if self.eng.cc is not None and self.mode == "snapshot":
+                vis = self.eng.cc.visible_rows(self, t)
+                if vis is not None:
+                    return vis, [c.name for c in t.cols]
             return t.rows, [c.name for c in t.cols]
         if ref[0] == "derived":
             cols, rows = self.run_select(ref[1], env)
@@ -1093,6 +1176,24 @@ class Session:
 
     def run_select(self, sel, env, lazy=False, with_frames=False):
         """Returns (colnames, iterable of value lists); with lazy+with_frames yields (cols, values, frame)."""
+        cc = self.eng.cc
+        if cc is not None and sel.get("lock") and not lazy:
+            # a locking read wherever it is evaluated (statement, subquery of a SET in a trigger, ...): locks what it scans and
+            # reads the latest committed rows
+            out = []
+            cc._select_locks(self, sel, env, "X" if sel["lock"] == "update" else "S", out)
+            cc.register(self)
+            cc.acquire(self, out)
+            saved_mode = self.mode
+            self.mode = "current"
+            try:
+                cols, rows = self._run_select(sel, env, lazy, with_frames)
+                return cols, list(rows)
+            finally:
+                self.mode = saved_mode
+        return self._run_select(sel, env, lazy, with_frames)
+
+    def _run_select(self, sel, env, lazy=False, with_frames=False):
         if sel.get("kind") == "union":
             cols = self.out_names(sel)
             rows = []
